@@ -3,6 +3,7 @@ package main
 import (
 	"fmt"
 	"go/ast"
+	"go/constant"
 	"go/types"
 	"os"
 	"strings"
@@ -20,6 +21,7 @@ type Engine struct {
 	rf     map[*types.Func][]bool
 	rfBusy map[*types.Func]bool
 	wt     map[*types.Func]map[int]bool
+	pin    map[*types.Func]int
 }
 
 func newEngine(m *Model) *Engine {
@@ -32,7 +34,7 @@ func (e *Engine) flow(u *FuncUnit) *Flow {
 		return f
 	}
 	t0 := time.Now()
-	f := newFlow(e.m, e.ef, u, nil, e.retBounds, e.resultFresh)
+	f := newFlowP(e, u, nil)
 	if os.Getenv("ARTCHECK_DEBUG") != "" {
 		fmt.Fprintf(os.Stderr, "flow %-40s blocks=%d iters=%d ok=%v %v\n", u.Name, len(f.g.Blocks), f.iters, f.ok, time.Since(t0))
 	}
@@ -105,7 +107,7 @@ func (e *Engine) retBounds(call *ast.CallExpr) []retBound {
 		}
 		return out
 	}
-	fl := newFlow(e.m, e.ef, u, entry, e.retBounds, e.resultFresh)
+	fl := newFlowP(e, u, entry)
 	var res []retBound
 	for i, p := range params {
 		if p == nil {
@@ -519,4 +521,151 @@ func (e *Engine) writesThrough(f *types.Func) map[int]bool {
 		}
 	}
 	return e.wt[f]
+}
+
+// preservesInner: a library function that, through the *nodeRef parameters (or receiver) it is
+// given, only ever stores references with an inner-kind tag (or the empty reference), itself and in
+// every library function it hands such a parameter to. After a call of such a function a
+// reference known not to be a leaf is still not a leaf (it may have changed size class).
+func (e *Engine) preservesInner(f *types.Func) bool {
+	if e.pin == nil {
+		e.pin = map[*types.Func]int{}
+	}
+	switch e.pin[f] {
+	case 1, 3: // proven, or in progress (optimistic on recursion)
+		return true
+	case 2:
+		return false
+	}
+	e.pin[f] = 3
+	ok := e.computePreservesInner(f)
+	if ok {
+		e.pin[f] = 1
+	} else {
+		e.pin[f] = 2
+	}
+	return ok
+}
+
+func (e *Engine) isRefPtr(t types.Type) bool {
+	if t == nil || e.m.NodeRef == nil {
+		return false
+	}
+	p, ok := t.Underlying().(*types.Pointer)
+	if !ok {
+		return false
+	}
+	n := namedOf(p.Elem())
+	return n != nil && n.Obj() == e.m.NodeRef.Obj()
+}
+
+func (e *Engine) computePreservesInner(f *types.Func) bool {
+	m := e.m
+	info := m.Info
+	u := m.ByObj[f]
+	if u == nil || u.Body == nil {
+		return false
+	}
+	ok := true
+	ast.Inspect(u.Body, func(n ast.Node) bool {
+		if !ok {
+			return false
+		}
+		switch x := n.(type) {
+		case *ast.AssignStmt:
+			for i, l := range x.Lhs {
+				se, isStar := ast.Unparen(l).(*ast.StarExpr)
+				if !isStar || !e.isRefPtr(info.TypeOf(se.X)) {
+					// a field of the reference written alone (ref.tag = …) is not a recognised form
+					if sel, isSel := ast.Unparen(l).(*ast.SelectorExpr); isSel && e.isRefPtr(info.TypeOf(sel.X)) {
+						ok = false
+					}
+					continue
+				}
+				if len(x.Rhs) != len(x.Lhs) {
+					ok = false
+					continue
+				}
+				cl, isLit := ast.Unparen(x.Rhs[i]).(*ast.CompositeLit)
+				if !isLit {
+					if call, isCall := ast.Unparen(x.Rhs[i]).(*ast.CallExpr); isCall {
+						if cu := m.calleeUnit(call); cu != nil {
+							if r := simpleReturn(cu); r != nil {
+								cl, isLit = ast.Unparen(r).(*ast.CompositeLit)
+							}
+						}
+					}
+				}
+				if !isLit {
+					ok = false
+					continue
+				}
+				if len(cl.Elts) == 0 {
+					continue // the empty reference
+				}
+				inner := false
+				st, _ := info.TypeOf(cl).Underlying().(*types.Struct)
+				for k, el := range cl.Elts {
+					name, val := "", el
+					if kv, isKV := el.(*ast.KeyValueExpr); isKV {
+						if id, isId := kv.Key.(*ast.Ident); isId {
+							name = id.Name
+						}
+						val = kv.Value
+					} else if st != nil && k < st.NumFields() {
+						name = st.Field(k).Name()
+					}
+					if tv, has := info.Types[val]; has && tv.Value != nil && tv.Type != nil && m.KindType != nil && types.Identical(tv.Type, m.KindType) && name != "" {
+						if v, exact := constant.Int64Val(tv.Value); exact && v != m.LeafKind.Value {
+							inner = true
+						}
+					}
+				}
+				if !inner {
+					ok = false
+				}
+			}
+		case *ast.CallExpr:
+			if isConversion(info, x) {
+				return true
+			}
+			passes := false
+			for _, a := range x.Args {
+				if e.isRefPtr(info.TypeOf(a)) {
+					passes = true
+				}
+			}
+			if sel, isSel := ast.Unparen(x.Fun).(*ast.SelectorExpr); isSel && info.Selections[sel] != nil && e.isRefPtr(info.TypeOf(sel.X)) {
+				passes = true
+			}
+			if !passes {
+				return true
+			}
+			cf := m.staticCallee(x)
+			if cf == nil || cf.Pkg() != m.Pkg {
+				ok = false
+				return true
+			}
+			if e.ef.callPure(x) {
+				return true
+			}
+			if !e.preservesInner(cf) {
+				ok = false
+			}
+		}
+		return true
+	})
+	return ok
+}
+
+// newFlowP builds the flow of u with the engine's interprocedural summaries attached.
+func newFlowP(e *Engine, u *FuncUnit, entry func(fl *Flow) []*Fact) *Flow {
+	preFlowHook = func(fl *Flow) {
+		fl.preserves = func(call *ast.CallExpr) bool {
+			f := e.m.staticCallee(call)
+			return f != nil && f.Pkg() == e.m.Pkg && e.preservesInner(f)
+		}
+	}
+	defer func() { preFlowHook = nil }()
+	return newFlow(e.m, e.ef, u, entry, e.retBounds, e.resultFresh)
 }
